@@ -66,6 +66,16 @@ let () =
         let finb = if fin = "-" then [] else zlist_of_hex fin in
         let (st, evs) = tool_run (fun s d -> (s, d)) (fun _ -> finb) (z_of_int (int_of_string chunk)) () orc in
         print_endline (string_of_status st ^ " " ^ String.concat "" (List.map (string_of_event true) evs))
+      | ("ROE" | "ROT") as which :: amount :: rest ->
+        let _, outs = split_bar rest [] in
+        let f = if which = "ROE" then readOrEOF else readOrThrow in
+        let ((r, evs), _) = f Z0 (z_of_int (int_of_string amount)) (List.map outcome_of_token outs) in
+        let st, tail = (match r with
+            | Val d -> ("exit:0", " R:" ^ hex_of_zlist d)
+            | Exn -> ("sig:" ^ string_of_z sIGABRT, "")
+            | Abort -> ("sig:" ^ string_of_z sIGABRT, "")
+            | Fuel -> ("fuel", "")) in
+        print_endline (st ^ " " ^ String.concat "" (List.map (string_of_event true) evs) ^ tail)
       | "S" :: catches :: rest ->
         let acts, outs = split_bar rest [] in
         let (st, evs) = script_run (catches = "1") (List.map act_of_token acts) (List.map outcome_of_token outs) in
